@@ -467,7 +467,7 @@ def jobs(tier):
             {"name": "accumulate", "h": "accumulate", "params": {}, "split": 32, "chunk": 40, "must_reach": ["dataset", "exc:ValueError"]}] + [
         {"name": f"dataset-e2e-{'-'.join(map(str, lens))}-r{r}-skip{k}", "h": "dataset-e2e", "params": {"template": "TD", "lens": lens, "flagsets": [0, 1], "read": r, "skip": k},
          "split": 16, "chunk": 25, "max_paths": 200000, "must_reach": []}
-        for lens, r, k in (([10, 10], 7, 4), ([11, 10], None, 0)) + ((([10, 10, 10], 1, 2), ([10, 9, 10], 20, 4), ([10, 10], 16, 10)) if tier != "quick" else ())]
+        for lens, r, k in (([10, 10], 7, 4), ([11, 10], None, 0)) + ((([10, 10], 1, 2), ([10, 9], 20, 4), ([10, 10], 16, 10), ([10, 10, 10], None, 0)) if tier != "quick" else ())]
 
 
 def vacuity_jobs():
